@@ -2,8 +2,11 @@ package main
 
 import (
 	"context"
+	"errors"
 	"strings"
 	"sync"
+	"sync/atomic"
+	"time"
 
 	"go.opentelemetry.io/otel/metric"
 	membedded "go.opentelemetry.io/otel/metric/embedded"
@@ -34,6 +37,31 @@ type H struct { // per-scenario harness state shared by the wrappers
 	sched *gsched
 	mu    sync.Mutex
 	obs   map[any]string // real SDK observable instrument -> instrument name
+	// scripted faults of the delegate SDK: RegisterCallback / instrument constructors refuse these names
+	refuseReg, refuseInst map[string]bool
+	kindOf                map[string]string          // harness process -> kind (is a refusal part of a hand-over?)
+	cbs                   map[string]metric.Callback // callback name -> the function internal/global registered with the SDK
+	cbCh                  map[string]chan struct{}   // closed when that happens the first time
+	nref                  map[string]int             // refusals per item
+	looping               int64                      // set when a refused item is submitted over and over
+}
+
+// refused records a scripted refusal; handover = it happens on an installer's goroutine, i.e. inside Set.
+func (h *H) refused(what, obj, sdk string, err error) {
+	h.mu.Lock()
+	if h.nref == nil {
+		h.nref = map[string]int{}
+	}
+	h.nref[what+"/"+obj+"/"+sdk]++
+	n := h.nref[what+"/"+obj+"/"+sdk]
+	h.mu.Unlock()
+	if n > 3 { // a loop that keeps re-submitting the refused item: recorded three times, then only throttled
+		atomic.StoreInt64(&h.looping, 1)
+		time.Sleep(5 * time.Millisecond)
+		return
+	}
+	h.emit(map[string]any{"ev": "SdkRefused", "what": what, "obj": obj, "sdk": sdk, "msg": err.Error(),
+		"handover": strings.HasSuffix(h.kindOf[h.sched.me()], "inst")})
 }
 
 func (h *H) gate(point string) { h.sched.gate(h.sched.me(), point) }
@@ -74,9 +102,15 @@ type wMeter struct {
 	id string
 }
 
-func (m *wMeter) inst(name string) {
+func (m *wMeter) inst(name string) error {
 	m.h.gate("sdk.Inst:" + name)
+	if m.h.refuseInst[name] {
+		err := errors.New("refused inst " + name)
+		m.h.refused("inst", name, m.id, err)
+		return err
+	}
 	m.h.emit(map[string]any{"ev": "SdkObj", "what": "inst", "obj": name, "sdk": m.id})
+	return nil
 }
 func (m *wMeter) remember(o any, name string, err error) {
 	if err == nil {
@@ -175,42 +209,58 @@ func (w wF64G) Record(ctx context.Context, v float64, o ...metric.RecordOption) 
 }
 
 func (m *wMeter) Int64Counter(n string, o ...metric.Int64CounterOption) (metric.Int64Counter, error) {
-	m.inst(n)
+	if err := m.inst(n); err != nil {
+		return nil, err
+	}
 	r, err := m.Meter.Int64Counter(n, o...)
 	return wI64C{r, m.h, m.id}, err
 }
 func (m *wMeter) Int64UpDownCounter(n string, o ...metric.Int64UpDownCounterOption) (metric.Int64UpDownCounter, error) {
-	m.inst(n)
+	if err := m.inst(n); err != nil {
+		return nil, err
+	}
 	r, err := m.Meter.Int64UpDownCounter(n, o...)
 	return wI64U{r, m.h, m.id}, err
 }
 func (m *wMeter) Int64Histogram(n string, o ...metric.Int64HistogramOption) (metric.Int64Histogram, error) {
-	m.inst(n)
+	if err := m.inst(n); err != nil {
+		return nil, err
+	}
 	r, err := m.Meter.Int64Histogram(n, o...)
 	return wI64H{r, m.h, m.id}, err
 }
 func (m *wMeter) Int64Gauge(n string, o ...metric.Int64GaugeOption) (metric.Int64Gauge, error) {
-	m.inst(n)
+	if err := m.inst(n); err != nil {
+		return nil, err
+	}
 	r, err := m.Meter.Int64Gauge(n, o...)
 	return wI64G{r, m.h, m.id}, err
 }
 func (m *wMeter) Float64Counter(n string, o ...metric.Float64CounterOption) (metric.Float64Counter, error) {
-	m.inst(n)
+	if err := m.inst(n); err != nil {
+		return nil, err
+	}
 	r, err := m.Meter.Float64Counter(n, o...)
 	return wF64C{r, m.h, m.id}, err
 }
 func (m *wMeter) Float64UpDownCounter(n string, o ...metric.Float64UpDownCounterOption) (metric.Float64UpDownCounter, error) {
-	m.inst(n)
+	if err := m.inst(n); err != nil {
+		return nil, err
+	}
 	r, err := m.Meter.Float64UpDownCounter(n, o...)
 	return wF64U{r, m.h, m.id}, err
 }
 func (m *wMeter) Float64Histogram(n string, o ...metric.Float64HistogramOption) (metric.Float64Histogram, error) {
-	m.inst(n)
+	if err := m.inst(n); err != nil {
+		return nil, err
+	}
 	r, err := m.Meter.Float64Histogram(n, o...)
 	return wF64H{r, m.h, m.id}, err
 }
 func (m *wMeter) Float64Gauge(n string, o ...metric.Float64GaugeOption) (metric.Float64Gauge, error) {
-	m.inst(n)
+	if err := m.inst(n); err != nil {
+		return nil, err
+	}
 	r, err := m.Meter.Float64Gauge(n, o...)
 	return wF64G{r, m.h, m.id}, err
 }
@@ -218,37 +268,49 @@ func (m *wMeter) Float64Gauge(n string, o ...metric.Float64GaugeOption) (metric.
 // observable instruments are handed out unwrapped (the SDK's RegisterCallback insists on its own
 // types); the wrapper only remembers which name each one has
 func (m *wMeter) Int64ObservableCounter(n string, o ...metric.Int64ObservableCounterOption) (metric.Int64ObservableCounter, error) {
-	m.inst(n)
+	if err := m.inst(n); err != nil {
+		return nil, err
+	}
 	r, err := m.Meter.Int64ObservableCounter(n, o...)
 	m.remember(r, n, err)
 	return r, err
 }
 func (m *wMeter) Int64ObservableUpDownCounter(n string, o ...metric.Int64ObservableUpDownCounterOption) (metric.Int64ObservableUpDownCounter, error) {
-	m.inst(n)
+	if err := m.inst(n); err != nil {
+		return nil, err
+	}
 	r, err := m.Meter.Int64ObservableUpDownCounter(n, o...)
 	m.remember(r, n, err)
 	return r, err
 }
 func (m *wMeter) Int64ObservableGauge(n string, o ...metric.Int64ObservableGaugeOption) (metric.Int64ObservableGauge, error) {
-	m.inst(n)
+	if err := m.inst(n); err != nil {
+		return nil, err
+	}
 	r, err := m.Meter.Int64ObservableGauge(n, o...)
 	m.remember(r, n, err)
 	return r, err
 }
 func (m *wMeter) Float64ObservableCounter(n string, o ...metric.Float64ObservableCounterOption) (metric.Float64ObservableCounter, error) {
-	m.inst(n)
+	if err := m.inst(n); err != nil {
+		return nil, err
+	}
 	r, err := m.Meter.Float64ObservableCounter(n, o...)
 	m.remember(r, n, err)
 	return r, err
 }
 func (m *wMeter) Float64ObservableUpDownCounter(n string, o ...metric.Float64ObservableUpDownCounterOption) (metric.Float64ObservableUpDownCounter, error) {
-	m.inst(n)
+	if err := m.inst(n); err != nil {
+		return nil, err
+	}
 	r, err := m.Meter.Float64ObservableUpDownCounter(n, o...)
 	m.remember(r, n, err)
 	return r, err
 }
 func (m *wMeter) Float64ObservableGauge(n string, o ...metric.Float64ObservableGaugeOption) (metric.Float64ObservableGauge, error) {
-	m.inst(n)
+	if err := m.inst(n); err != nil {
+		return nil, err
+	}
 	r, err := m.Meter.Float64ObservableGauge(n, o...)
 	m.remember(r, n, err)
 	return r, err
@@ -270,13 +332,63 @@ func (m *wMeter) RegisterCallback(f metric.Callback, insts ...metric.Observable)
 	}
 	m.h.mu.Unlock()
 	m.h.gate("sdk.Register:" + cb)
+	if m.h.refuseReg[cb] {
+		err := errors.New("refused cb " + cb)
+		m.h.refused("cb", cb, m.id, err)
+		return nil, err
+	}
+	if cb == "?" {
+		// internal/global passed something that is not an instrument of this SDK (e.g. the nil unwrap() of an
+		// instrument whose own hand-over was refused): the real SDK decides; a refusal is a consequence
+		reg, err := m.Meter.RegisterCallback(f, insts...)
+		if err != nil {
+			m.h.refused("cb", cb, m.id, err)
+			return nil, err
+		}
+		m.h.emit(map[string]any{"ev": "SdkCbRegistered", "cb": cb, "sdk": m.id})
+		return reg, nil
+	}
 	m.h.emit(map[string]any{"ev": "SdkCbRegistered", "cb": cb, "sdk": m.id})
 	reg, err := m.Meter.RegisterCallback(f, insts...)
 	if err != nil {
 		m.h.emit(map[string]any{"ev": "SdkCbRegisterFailed", "cb": cb, "err": err.Error()})
 		return reg, err
 	}
+	m.h.mu.Lock()
+	m.h.cbs[cb] = f
+	if ch, ok := m.h.cbCh[cb]; ok {
+		select {
+		case <-ch:
+		default:
+			close(ch)
+		}
+	}
+	m.h.mu.Unlock()
 	return &wReg{Registration: reg, h: m.h, cb: cb}, nil
+}
+
+// recObs is a recording Observer handed to a callback by the harness itself (an SDK may invoke a callback
+// concurrently, each invocation with its own Observer that is valid for that invocation only).
+type recObs struct {
+	membedded.Observer
+	h   *H
+	inv string
+}
+
+func (r *recObs) seen(inst any, v int64) {
+	r.h.mu.Lock()
+	name, ok := r.h.obs[inst]
+	r.h.mu.Unlock()
+	if !ok {
+		name = "?" // not an SDK instrument: the global placeholder was not unwrapped
+	}
+	r.h.emit(map[string]any{"ev": "Observed", "observer": r.inv, "val": v, "inst": name})
+}
+func (r *recObs) ObserveInt64(i metric.Int64Observable, v int64, _ ...metric.ObserveOption) {
+	r.seen(i, v)
+}
+func (r *recObs) ObserveFloat64(i metric.Float64Observable, v float64, _ ...metric.ObserveOption) {
+	r.seen(i, int64(v))
 }
 
 type wReg struct {
